@@ -178,6 +178,70 @@ fn op_decode_seq(c: &Value, ev: &mut Map<String, Value>) -> Result<(), String> {
     Ok(())
 }
 
+/// the same input under all 8 option sets and through the default entry point (C14)
+fn op_decode_opts(c: &Value, ev: &mut Map<String, Value>) -> Result<(), String> {
+    let input = json_bytes(&c["in"])?;
+    let mut outs = Vec::new();
+    for i in 0..9u8 {
+        let (opts, entry) = if i == 8 {
+            (json!([false, true, false]), "default")
+        } else {
+            (json!([i & 1 != 0, i & 2 != 0, i & 4 != 0]), "validate")
+        };
+        let cc = json!({"opts": opts, "entry": entry});
+        let o = guarded(|| {
+            let mut r = SliceReader::from(&input[..]);
+            decode_with(&mut r, &cc)
+        });
+        let (out, rem) = match o {
+            Ok((o, rem)) => (o, rem),
+            Err(p) => (p, json!(0)),
+        };
+        outs.push(json!({"opts": cc["opts"], "entry": entry, "out": out, "rem": rem}));
+    }
+    ev.insert("outs".into(), Value::Array(outs));
+    Ok(())
+}
+
+/// decode(b) and decode(b ++ suffix) (C08)
+fn op_decode_suffix(c: &Value, ev: &mut Map<String, Value>) -> Result<(), String> {
+    let input = json_bytes(&c["in"])?;
+    let suffix = json_bytes(&c["suffix"])?;
+    let mut both = input.clone();
+    both.extend_from_slice(&suffix);
+    for (name, data) in [("a", &input), ("b", &both)] {
+        let o = guarded(|| {
+            let mut r = SliceReader::from(&data[..]);
+            decode_with(&mut r, c)
+        });
+        let (out, rem) = match o {
+            Ok((o, rem)) => (o, rem),
+            Err(p) => (p, json!(0)),
+        };
+        ev.insert(format!("out_{name}"), out);
+        ev.insert(format!("rem_{name}"), rem);
+    }
+    Ok(())
+}
+
+/// decode_avps(r1 ++ .. ++ rk) and decode_avps(ri) for each i (C08)
+fn op_avps_concat(c: &Value, ev: &mut Map<String, Value>) -> Result<(), String> {
+    let recs: Vec<Vec<u8>> = c["recs"].as_array().ok_or("recs")?.iter().map(json_bytes).collect::<Result<_, _>>()?;
+    let whole: Vec<u8> = recs.iter().flatten().copied().collect();
+    let run = |data: &[u8]| -> Value {
+        match guarded(|| {
+            let mut r = SliceReader::from(data);
+            avps_with(&mut r)
+        }) {
+            Ok((o, rem)) => json!({"out": o, "rem": rem}),
+            Err(p) => json!({"out": p, "rem": 0}),
+        }
+    };
+    ev.insert("whole".into(), run(&whole));
+    ev.insert("parts".into(), Value::Array(recs.iter().map(|r| run(r)).collect()));
+    Ok(())
+}
+
 enum Val {
     Msg(Message<Vec<u8>>),
     Avp(AVP),
@@ -652,30 +716,44 @@ fn op_enum_names(c: &Value, ev: &mut Map<String, Value>) -> Result<(), String> {
     Ok(())
 }
 
-/// bitmask AVPs (C17).  `first` / `second` are the accessors named after the constructor's
-/// first / second parameter.
+/// bitmask AVPs (C17): for one kind, the four constructor combinations and a list of wire words.
+/// `first` / `second` are the accessors named after the constructor's first / second parameter.
 fn op_bitmask(c: &Value, ev: &mut Map<String, Value>) -> Result<(), String> {
     let kind = c["kind"].as_str().ok_or("kind")?;
-    // build: either new(a, b) or from 4 wire octets
-    let from_wire = !c["w"].is_null();
-    let wire: [u8; 4] = if from_wire { json_fixed::<4>(&c["w"])? } else { [0; 4] };
-    let a = c["a"].as_bool().unwrap_or(false);
-    let b = c["b"].as_bool().unwrap_or(false);
-    let o = guarded(|| -> Result<Value, String> {
+    let words: Vec<[u8; 4]> = c["words"]
+        .as_array()
+        .cloned()
+        .unwrap_or_default()
+        .iter()
+        .map(json_fixed::<4>)
+        .collect::<Result<_, _>>()?;
+    let o = guarded(|| -> Result<(Vec<Value>, Vec<Value>), String> {
         macro_rules! go {
             ($ty:ident, $first:ident, $second:ident) => {{
-                let x = if from_wire {
-                    let mut r = SliceReader::from(&wire[..]);
-                    types::$ty::try_read(&mut r).map_err(|e| format!("{e:?}"))?
-                } else {
-                    types::$ty::new(a, b)
+                let describe = |x: types::$ty| -> Value {
+                    let dbg = format!("{x:?}");
+                    let mut w = VecWriter::new();
+                    AVP::$ty(x).write(&mut w);
+                    json!({"first": x.$first(), "second": x.$second(),
+                           "bits": opt_json(bitmask_bits(&dbg).map(|w| bytes_json(&w.to_be_bytes()))),
+                           "enc": bytes_json(&w.data)})
                 };
-                let dbg = format!("{x:?}");
-                let mut w = VecWriter::new();
-                AVP::$ty(x).write(&mut w);
-                Ok(json!({"t": "ok", "first": x.$first(), "second": x.$second(),
-                          "bits": opt_json(bitmask_bits(&dbg).map(|w| bytes_json(&w.to_be_bytes()))),
-                          "enc": bytes_json(&w.data)}))
+                let mut ctor = Vec::new();
+                for (a, b) in [(false, false), (true, false), (false, true), (true, true)] {
+                    let mut d = describe(types::$ty::new(a, b));
+                    d["a"] = json!(a);
+                    d["b"] = json!(b);
+                    ctor.push(d);
+                }
+                let mut wire = Vec::new();
+                for w in &words {
+                    let mut r = SliceReader::from(&w[..]);
+                    let x = types::$ty::try_read(&mut r).map_err(|e| format!("{e:?}"))?;
+                    let mut d = describe(x);
+                    d["w"] = bytes_json(w);
+                    wire.push(d);
+                }
+                Ok((ctor, wire))
             }};
         }
         match kind {
@@ -686,14 +764,19 @@ fn op_bitmask(c: &Value, ev: &mut Map<String, Value>) -> Result<(), String> {
             other => Err(format!("not a bitmask kind: {other}")),
         }
     });
-    ev.insert(
-        "out".into(),
-        match o {
-            Ok(Ok(v)) => v,
-            Ok(Err(e)) => json!({"t": "err", "v": e}),
-            Err(p) => p,
-        },
-    );
+    match o {
+        Ok(Ok((ctor, wire))) => {
+            ev.insert("out".into(), json!({"t": "ok"}));
+            ev.insert("ctor".into(), Value::Array(ctor));
+            ev.insert("wire".into(), Value::Array(wire));
+        }
+        Ok(Err(e)) => {
+            ev.insert("out".into(), json!({"t": "err", "v": e}));
+        }
+        Err(p) => {
+            ev.insert("out".into(), p);
+        }
+    }
     Ok(())
 }
 
@@ -839,6 +922,9 @@ pub fn run_op(c: &Value, ev: &mut Map<String, Value>) -> Result<(), String> {
         "decode_avps" => op_decode_avps(c, ev),
         "decode_payload" => op_decode_payload(c, ev),
         "decode_seq" => op_decode_seq(c, ev),
+        "decode_opts" => op_decode_opts(c, ev),
+        "decode_suffix" => op_decode_suffix(c, ev),
+        "avps_concat" => op_avps_concat(c, ev),
         "encode" => op_encode(c, ev),
         "encode_seq" => op_encode_seq(c, ev),
         "roundtrip" => op_roundtrip(c, ev),
